@@ -170,6 +170,38 @@ func (x *Exec) counterInLoop(fr *Frame, li *loopInfo, k string) bool {
 	return false
 }
 
+// mapRangeKeys: the state-variable keys of the "visited" sets of the function's range-over-map loops, in source order.
+func (fr *Frame) mapRangeKeys() []string {
+	type rk struct {
+		pos token.Pos
+		seq int
+		key string
+	}
+	var rs []rk
+	n := 0
+	for _, b := range fr.fn.Blocks {
+		for _, ins := range b.Instrs {
+			if r, ok := ins.(*ssa.Range); ok {
+				if _, isMap := r.X.Type().Underlying().(*types.Map); isMap {
+					n++
+					rs = append(rs, rk{r.Pos(), n, fmt.Sprintf("f%d.range.%s.visited", fr.id, r.Name())})
+				}
+			}
+		}
+	}
+	sort.SliceStable(rs, func(i, j int) bool {
+		if rs[i].pos != rs[j].pos && rs[i].pos.IsValid() && rs[j].pos.IsValid() {
+			return rs[i].pos < rs[j].pos
+		}
+		return rs[i].seq < rs[j].seq
+	})
+	out := make([]string, len(rs))
+	for i, r := range rs {
+		out[i] = r.key
+	}
+	return out
+}
+
 // allocByKey finds the stack local behind a state variable key (see allocRank).
 func (fr *Frame) allocByKey(key string) *ssa.Alloc {
 	if fr.ranks == nil {
@@ -189,6 +221,21 @@ func (fr *Frame) allocByKey(key string) *ssa.Alloc {
 		}
 	}
 	return nil
+}
+
+// staleClause: a contract clause that cannot be evaluated on the current code because it names something the code
+// no longer has (a local, a field, a call site): the code drifted away from its contract. That is reported as a
+// failing obligation of that clause (a verdict the check turns into a VIOLATION), not as an engine error.
+func (x *Exec) staleClause(err error) bool {
+	if err == nil {
+		return false
+	}
+	m := err.Error()
+	return strings.Contains(m, "unknown identifier") || strings.Contains(m, "no field") || strings.Contains(m, "no such call site") || strings.Contains(m, "has no field") || strings.Contains(m, "unknown field")
+}
+
+func (x *Exec) staleObligation(kind string, pos token.Pos, labels []string, text string, pc Term, err error) {
+	x.u.AddObligation(x.topName, kind, pos, labels, text+"   [cannot be evaluated on the current code: "+err.Error()+"]", pc, False)
 }
 
 func (x *Exec) fnShort(fn *ssa.Function) string {
@@ -501,6 +548,10 @@ func (x *Exec) loopHead(fr *Frame, li *loopInfo, pre *State) (*State, error) {
 		env.loop = li
 		g, err := env.Bool(c.E)
 		if err != nil {
+			if x.staleClause(err) {
+				x.staleObligation(fmt.Sprintf("inv-entry.%sL%d.c%d", x.inlineTag(fr), li.ordinal, ci+1), li.head.Instrs[0].Pos(), x.lab(c.Labels), c.Text, pre.PC, err)
+				continue
+			}
 			return nil, engineErr("%s loop %d invariant %q: %v", fname, li.ordinal, c.Text, err)
 		}
 		o := x.u.AddObligation(x.topName, fmt.Sprintf("inv-entry.%sL%d.c%d", x.inlineTag(fr), li.ordinal, ci+1), li.head.Instrs[0].Pos(), x.lab(c.Labels), c.Text, pre.PC, g)
@@ -619,6 +670,9 @@ func (x *Exec) loopHead(fr *Frame, li *loopInfo, pre *State) (*State, error) {
 		env.loop = li
 		g, err := env.Bool(c.E)
 		if err != nil {
+			if x.staleClause(err) {
+				continue // reported at loop entry; nothing is assumed from a clause that cannot be evaluated
+			}
 			return nil, engineErr("%s loop %d invariant %q: %v", fname, li.ordinal, c.Text, err)
 		}
 		x.u.Assume(Implies(h.PC, g))
@@ -717,6 +771,10 @@ func (x *Exec) loopBack(fr *Frame, li *loopInfo, st *State) error {
 		case "invariant":
 			g, err := env.Bool(c.E)
 			if err != nil {
+				if x.staleClause(err) {
+					x.staleObligation(fmt.Sprintf("inv-preserved.%sL%d.c%d", x.inlineTag(fr), li.ordinal, ci+1), li.head.Instrs[0].Pos(), x.lab(c.Labels), c.Text, st.PC, err)
+					continue
+				}
 				return engineErr("%s loop %d invariant %q: %v", fname, li.ordinal, c.Text, err)
 			}
 			o := x.u.AddObligation(x.topName, fmt.Sprintf("inv-preserved.%sL%d.c%d", x.inlineTag(fr), li.ordinal, ci+1), li.head.Instrs[0].Pos(), x.lab(c.Labels), c.Text, st.PC, g)
@@ -726,6 +784,10 @@ func (x *Exec) loopBack(fr *Frame, li *loopInfo, st *State) error {
 			// at(iter, x) in e is x at the start of the iteration
 			g, err := env.Bool(c.E)
 			if err != nil {
+				if x.staleClause(err) {
+					x.staleObligation(fmt.Sprintf("step.%sL%d.c%d", x.inlineTag(fr), li.ordinal, ci+1), li.head.Instrs[0].Pos(), x.lab(c.Labels), c.Text, st.PC, err)
+					continue
+				}
 				return engineErr("%s loop %d step %q: %v", fname, li.ordinal, c.Text, err)
 			}
 			o := x.u.AddObligation(x.topName, fmt.Sprintf("step.%sL%d.c%d", x.inlineTag(fr), li.ordinal, ci+1), li.head.Instrs[0].Pos(), x.lab(c.Labels), c.Text, st.PC, g)
